@@ -7,12 +7,15 @@ package allocator
 
 import (
 	"bufio"
+	"bytes"
 	"errors"
 	"fmt"
 	"math/big"
 	"net"
 	"net/netip"
 	"os"
+	"os/exec"
+	"runtime"
 	"sort"
 	"strconv"
 	"strings"
@@ -535,7 +538,59 @@ func vf01Reg(f []string) string {
 	return strings.Join(res, " ")
 }
 
+// Cases whose first token starts with "x" (xpool, xpd, xreg) may not terminate or may exhaust memory
+// (that is what they probe): they run in a child process of the same test binary, which gives up
+// when its heap passes 192 MiB or after 1.5 s and reports "hang".
+func vf01Probe(line string) string {
+	cmd := exec.Command(os.Args[0], "-test.run", "^TestVerifC01Child$", "-test.count=1")
+	cmd.Env = append(os.Environ(), "VERIF_C01_CHILD="+line)
+	var buf bytes.Buffer
+	cmd.Stdout = &buf
+	if err := cmd.Start(); err != nil {
+		return "probe-error"
+	}
+	done := make(chan error, 1)
+	go func() { done <- cmd.Wait() }()
+	select {
+	case <-done:
+	case <-time.After(15 * time.Second):
+		cmd.Process.Kill()
+		<-done
+		return "hang"
+	}
+	for _, l := range strings.Split(buf.String(), "\n") {
+		if strings.HasPrefix(l, "VERIF-RESULT ") {
+			return strings.TrimPrefix(l, "VERIF-RESULT ")
+		}
+	}
+	return "probe-died"
+}
+
+func TestVerifC01Child(t *testing.T) {
+	line := os.Getenv("VERIF_C01_CHILD")
+	if line == "" {
+		t.Skip("child only")
+	}
+	start := time.Now()
+	go func() {
+		var m runtime.MemStats
+		for {
+			time.Sleep(2 * time.Millisecond)
+			runtime.ReadMemStats(&m)
+			if m.HeapAlloc > 192<<20 || time.Since(start) > 1500*time.Millisecond {
+				fmt.Println("VERIF-RESULT hang")
+				os.Exit(0)
+			}
+		}
+	}()
+	fmt.Println("VERIF-RESULT " + vf01Case(line[1:]))
+	os.Exit(0)
+}
+
 func vf01Case(line string) (out string) {
+	if strings.HasPrefix(line, "x") {
+		return vf01Probe(line)
+	}
 	done := make(chan string, 1)
 	go func() {
 		defer func() {
